@@ -141,6 +141,18 @@ def source(spec):
         lay = "3"
     if lay[0] == "u":
         return dx.from_pandas(pdf, npartitions=int(lay[1:]), sort=False)
+    if lay[0] == "d":
+        # from_delayed with a user prefix and known divisions
+        from dask import delayed
+
+        n = int(lay[1:])
+        cuts = [round(i * len(pdf) / n) for i in range(1, n)]
+        parts = cut(pdf, cuts)
+        divs = [pdf.index[e] for e in [0] + cuts] + [pdf.index[-1]]
+        return dx.from_delayed([delayed(_ident)(p) for p in parts], meta=pdf.iloc[:0], divisions=tuple(divs), prefix="stage")
+    if lay[0] == "a":
+        arr = pdf[["a", "u", "b", "d"]].to_numpy(dtype="float64")
+        return dx.from_array(arr, chunksize=max(1, len(pdf) // int(lay[1:])), columns=["a", "u", "b", "d"])
     if lay[0] in "mk":
         cuts = [int(c) for c in lay[1:].split(",") if c != ""]
         parts = cut(pdf, cuts)
